@@ -11,18 +11,33 @@ HARNESS_EXTRA = ["-fno-access-control"]      # PtrPacket's constructor and two m
 CASE_START = ("init",)
 MANIFEST = dict(
     text="Lean 4 theorems over a code-shaped pointer model (heap of cells with inner/parent links, fuel-bounded "
-         "recursive delete/clone) of PDU/Packet/PDUOption copy, move, clone, operator/, inner_pdu, release: the model "
+         "recursive delete/clone) of PDU/Packet copy, move, clone, operator/, inner_pdu, release: the model "
          "refines a chain-level specification for every program, hence the ownership-forest invariant, exactly-once "
-         "destruction, deep-equal copies (also from a shorter source) and independence hold for all programs. Tied "
-         "to the code by running random and small-scope-exhaustive programs on real objects of 51 classes under "
-         "ASan+LSan with the live-PDU census, comparing the printed inner/parent forest with the model (modulo "
-         "address renaming) and with the specification oracle.",
-    note="Trusted: Lean kernel + standard axioms; hand-written model tied by correspondence "
-         "(harness/c12_ownership.cpp); member-wise copy/move of each class abstracted to one value per layer; "
-         "PDUOption's small-buffer/heap union and vector storage observed by sanitizers only; programs the guard "
-         "refuses (documented-undefined use) are outside the property.",
-    technique="Lean 4 proof (refinement of a pointer model to a chain specification, forest invariant) + "
-              "model/impl correspondence on real objects",
+         "destruction, deep-equal copies (also from a shorter source) and independence hold for all programs. "
+         "PDUOption is modelled at storage level, statement for statement (option_/size_/real_size_, the "
+         "small-buffer/heap-pointer union, every constructor, both assignment operators, destructor, "
+         "set_payload_contents, data_ptr; vector<option> push_back/pop_back/erase as the member calls libstdc++ "
+         "makes) over an explicit heap in which reading released, wild or indeterminate storage and releasing twice "
+         "are faults: for every history the storage invariant holds (a heap-backed option owns exactly one live block "
+         "of exactly real_size_ bytes, no block shared, no leak, small and moved-from options own nothing, nothing "
+         "read after release, every block released exactly once), it is inductive over every operation from every "
+         "state, and the observable triple (option(), length_field(), data) refines a plain value model (copy = same "
+         "value, move = target gets the value, source keeps option()/length_field() and reports data_size() 0 iff "
+         "its data was longer than 8 bytes), with a frame theorem (copies are independent) and erase = closes the "
+         "gap. Tied to the code by running random and small-scope-exhaustive programs on real objects of 51 classes "
+         "under ASan+UBSan+LSan with the live-PDU census (forest printed modulo address renaming) and on real "
+         "PDUOption<uint8_t,IP> objects and a real std::vector of them, printing what every option reports and the "
+         "number and total size of live heap blocks (ASan allocator hooks) after every step; both streams are compared "
+         "with the models and with the specification oracles.",
+    note="Trusted: Lean kernel + standard axioms; hand-written models tied by correspondence "
+         "(harness/c12_ownership.cpp, harness/c12_option.cpp); member-wise copy/move of each PDU class abstracted to "
+         "one value per layer; the object representation of the option's union is abstract (reading the inactive "
+         "member yields indeterminate bytes / a wild pointer, both faults when used); std::vector<option> is modelled "
+         "with reserved capacity (no reallocation); programs the guard refuses (documented-undefined use) are outside "
+         "the property.",
+    technique="Lean 4 proof (refinement of a pointer model to a chain specification, forest invariant; open-invariant "
+              "Hoare reasoning over a heap model of PDUOption, refinement to a value model) + model/impl "
+              "correspondence on real objects with allocator census",
     design="DESIGN.md §6 C12")
 
 # class table: must agree with harness/c12_ownership.cpp (checked at run time through the `classes` op)
@@ -297,6 +312,179 @@ def known_cases(table):
     ]
 
 
+# ----------------------------------------------------------------------------- PDUOption storage level (harness c12_option)
+
+OPT_HARNESS = "c12_option"
+OPT_CASE_START = ("sinit",)
+NU, VCAP = 6, 4
+OPT_LENS = [0, 1, 7, 8, 9, 16, 255, 300]
+
+
+def opt_len(rng):
+    r = rng.random()
+    if r < 0.70:
+        return rng.choice(OPT_LENS)
+    if r < 0.97:
+        return rng.randrange(0, 24)
+    if r < 0.995:
+        return rng.choice([33, 64, 1000, 4096])
+    return rng.choice([65535, 65536, 70000])          # option_payload_too_large from 65536 on
+
+
+def opt_ctor(rng, i):
+    """one of the four constructors; advertised length mostly different from the real one where the form allows it"""
+    code, ln, fill = rng.randrange(256), opt_len(rng), rng.randrange(256)
+    k = rng.randrange(4)
+    if k == 0:
+        return f"snull {i} {code} {rng.choice([0, 1, 8, 9, 300, 65535, 65536, 70000])}", 0
+    if k == 1:
+        return f"sdata {i} {code} {ln} {fill}", ln
+    if k == 2:
+        return f"srange {i} {code} {ln} {fill}", ln
+    adv = rng.choice([0, 1, 8, 9, ln, ln + 1, max(ln, 1) - 1, 255, 65535, 65536 + ln])
+    return f"sadv {i} {code} {adv} {ln} {fill}", ln
+
+
+def gen_opt_case(rng, nops):
+    """a program over NU user slots and a vector of capacity VCAP; the shadow keeps most operations inside the guard"""
+    live = [False] * NU
+    vlen = 0
+    ops = [f"sinit {NU} {VCAP}"]
+
+    def lives():
+        return [i for i in range(NU) if live[i]] + [NU + k for k in range(vlen)]
+
+    kinds = (["new"] * 5 + ["copy"] * 2 + ["move"] * 2 + ["assign"] * 4 + ["massign"] * 4 + ["del"] * 2 + ["read"] +
+             ["vpush"] * 2 + ["vmove"] + ["verase"] * 2 + ["vpop"])
+    for _ in range(nops):
+        k = rng.choice(kinds)
+        wild = rng.random() < 0.04
+        free = [i for i in range(NU) if not live[i]]
+        ls = lives()
+        anyslot = rng.randrange(NU + VCAP)
+        if k == "new":
+            i = rng.choice(free) if free and not wild else anyslot
+            line, ln = opt_ctor(rng, i)
+            ops.append(line)
+            if i < NU and not live[i] and ln <= 65535:
+                live[i] = True
+        elif k in ("copy", "move"):
+            if not (free and ls) and not wild:
+                continue
+            i = rng.choice(free) if free and not wild else anyslot
+            j = rng.choice(ls) if ls and not wild else anyslot
+            ops.append(f"s{k} {i} {j}")
+            if i < NU and not live[i] and j in ls:
+                live[i] = True
+        elif k in ("assign", "massign"):
+            if not ls and not wild:
+                continue
+            i = rng.choice(ls) if ls and not wild else anyslot
+            j = i if rng.random() < 0.25 else (rng.choice(ls) if ls and not wild else anyslot)
+            ops.append(f"s{k} {i} {j}")
+        elif k == "del":
+            us = [i for i in range(NU) if live[i]]
+            if not us and not wild:
+                continue
+            i = rng.choice(us) if us and not wild else anyslot
+            ops.append(f"sdel {i}")
+            if i < NU:
+                live[i] = False
+        elif k == "read":
+            if ls:
+                ops.append(f"sread {rng.choice(ls)}")
+        elif k in ("vpush", "vmove"):
+            if not ls and not wild:
+                continue
+            j = rng.choice(ls) if ls and not wild else anyslot
+            ops.append(f"{k} {j}")
+            if j in ls and vlen < VCAP:
+                vlen += 1
+        elif k == "verase":
+            if vlen == 0 and not wild:
+                continue
+            e = rng.randrange(vlen) if vlen and not wild else rng.randrange(VCAP + 1)
+            ops.append(f"verase {e}")
+            if e < vlen:
+                vlen -= 1
+        elif k == "vpop":
+            ops.append("vpop")
+            if vlen:
+                vlen -= 1
+    ops.append("send")
+    return ops
+
+
+OPT_PRELUDE = [f"sinit {NU} {VCAP}", "sdata 0 10 3 1", "srange 1 11 12 32", "sadv 2 12 5 20 64", "srange 4 14 9 96",
+               "vpush 4", "sdel 4", "sdata 4 15 8 128", "vmove 4", "sdel 4", "srange 4 16 16 160", "vmove 4", "sdel 4"]
+# user: 0 small(3)  1 heap(12)  2 heap(20, advertised 5)  3 free  4 free  5 free ; vector: heap(9) small(8) heap(16)
+
+
+def opt_atoms():
+    occ = [0, 1, 2, NU, NU + 1, NU + 2]
+    atoms = []
+    for i in occ:
+        for j in occ:
+            atoms += [f"sassign {i} {j}", f"smassign {i} {j}"]
+        atoms += [f"scopy 3 {i}", f"smove 3 {i}", f"vpush {i}", f"vmove {i}", f"sread {i}"]
+    atoms += ["sdel 0", "sdel 1", "sdel 2", "sdel 3", "verase 0", "verase 1", "verase 2", "verase 3", "vpop",
+              "snull 3 1 9", "sdata 3 2 9 7", "srange 3 3 8 7", "sadv 3 4 9 0 7"]
+    return atoms
+
+
+def opt_exhaustive(rng, limit, depth=2):
+    """small scope: every program of `depth` operations on a fixed pool holding small and heap-backed options of
+    different lengths in user slots and in the vector (quick tier: a seeded sample of it)"""
+    atoms = opt_atoms()
+    if depth == 2:
+        progs = list(itertools.product(range(len(atoms)), repeat=2))
+        if limit < len(progs):
+            progs = rng.sample(progs, limit)
+    else:
+        progs = [tuple(rng.randrange(len(atoms)) for _ in range(depth)) for _ in range(limit)]
+    return [OPT_PRELUDE + [atoms[i] for i in idx] + ["send"] for idx in progs]
+
+
+def opt_known_cases():
+    return [
+        # KF-C12-2 (fixed): copy assignment onto itself, heap-backed and small; then move assignment onto itself
+        [f"sinit {NU} {VCAP}", "sdata 0 3 12 65", "sassign 0 0", "sdata 1 4 8 1", "sassign 1 1", "smassign 1 1", "smassign 0 0", "send"],
+        # what seeded/C04 changed: move assignment between two heap-backed options of different advertised lengths,
+        # directly and through vector::erase
+        [f"sinit {NU} {VCAP}", "sadv 0 1 40 12 0", "sadv 1 2 50 20 0", "smassign 0 1", "sread 1", "send"],
+        [f"sinit {NU} {VCAP}", "srange 0 1 12 0", "srange 1 2 20 0", "vmove 0", "vmove 1", "verase 0", "send"],
+        # what seeded/C12c changed: copy assignment of a shorter option onto a heap-backed one
+        [f"sinit {NU} {VCAP}", "srange 0 1 12 0", "srange 1 2 3 9", "sassign 0 1", "srange 2 3 10 5", "srange 3 4 30 5",
+         "sassign 3 2", "send"],
+    ]
+
+
+def run_opt_stream(chk, oexe, cases, chunk=2500, stop_after=60):
+    """the option stream in chunks; once a tree is clearly broken (dozens of failing cases, each of them a process
+    restart under ASan plus shrinking) the remaining chunks add time, not information"""
+    import collections
+    stats = collections.Counter()
+    for k in range(0, len(cases), chunk):
+        ops = [l for c in cases[k:k + chunk] for l in c]
+        stats += corr.correspond(chk, AREA, oexe, ops, case_start=OPT_CASE_START, classify=classify_opt, sig_of=sig_of)
+        if stats.get("fault", 0) + stats.get("spec", 0) + stats.get("diff", 0) >= stop_after:
+            if k + chunk < len(cases):
+                chk.extra["option_stream_cut"] = f"stopped after {k + chunk} of {len(cases)} cases: {dict(stats)}"
+            break
+    return stats
+
+
+def classify_opt(op, impl):
+    w = op.split(" ")
+    st = impl.split(" ", 1)[0]
+    tag = w[0]
+    if st not in ("ok", "init", "end"):
+        tag += ":" + st[:12]
+    elif w[0] in ("sassign", "smassign") and len(w) == 3:
+        tag += ":self" if w[1] == w[2] else (":vec" if int(w[1]) >= NU or int(w[2]) >= NU else "")
+    return tag
+
+
 def classify(op, impl):
     w = op.split(" ")
     st = impl.split(" ", 1)[0]
@@ -340,6 +528,17 @@ def run(chk):
         focus = [table[(i * 3 + j * 11) % len(table)] for j in range(k)]
         ops += gen_case(rng, table, rng.choice([6, 10, 16, 30]), classes=focus if i % 5 else None)
     stats = corr.correspond(chk, AREA, exe, ops, case_start=CASE_START, classify=classify, sig_of=sig_of)
+    # PDUOption at storage level: real options, heap-block census, value oracle
+    oexe, oerr = core.build_harness(OPT_HARNESS)
+    if oexe is None:
+        chk.violation("option harness does not build: " + oerr[-1500:], ["build-error"], nofail=True)
+        return
+    cases = opt_known_cases() + opt_exhaustive(rng, 3000 if quick else 10**6)
+    cases += [gen_opt_case(rng, rng.choice([6, 10, 16, 30])) for _ in range(8000 if quick else 80000)]
+    if not quick:
+        cases += opt_exhaustive(rng, 40000, depth=3)
+        cases += [gen_opt_case(rng, 120) for _ in range(3000)]
+    stats += run_opt_stream(chk, oexe, cases, chunk=2500 if quick else 10000)
     if not quick:
         ops = []
         for c in exhaustive_cases(table, 60000, rng, depth=3):      # seeded sample of the 3-operation scope
@@ -357,9 +556,18 @@ def run(chk):
     chk.cov["rule"] = ("cases = programs over {new,set,clone,copy-ctor,move-ctor,operator/,/=,copy-assign,move-assign,"
                        "inner_pdu(ptr|ref|null),release_inner_pdu,delete,Packet wrap/copy/move/assign/release//=,PtrPacket "
                        "adoption,PDUOption copy/move} on a pool of 4 handles of real objects (51 classes in rotation); "
-                       "distinct_nontrivial counts distinct (operation, resulting forest) pairs")
+                       "option cases = programs over {4 constructors (data lengths 0,1,7,8,9,16,255,300,65535,65536; "
+                       "advertised != real length), copy-ctor, move-ctor, copy-assign and move-assign (25% onto itself), "
+                       "destroy, read, vector push_back(copy|move)/pop_back/erase} on 6 user slots + a vector of capacity 4 "
+                       "of real PDUOption<uint8_t,IP>, and every 2-operation program (thorough: + sampled 3-operation "
+                       "programs) over a fixed pool of small and heap-backed options; "
+                       "distinct_nontrivial counts distinct (operation, resulting forest / option pool) pairs")
     chk.extra["classes"] = [n for _, n, _ in table]
-    chk.extra["modelled_not_proved"] = ["PDUOption small-buffer/heap union (value level only; memory observed by ASan)",
+    chk.extra["modelled_not_proved"] = ["std::vector<option> reallocation (push_back beyond capacity = move-construct every element "
+                                        "into new storage + destroy the old ones): each of those member calls is modelled and "
+                                        "proved, the composite is not an operation of the model; the harness reserves capacity",
+                                        "option_type other than one byte, and the option containers inside the PDU classes "
+                                        "(same class template): tied at value level only (forest harness, container-kind classes)",
                                         "member-wise copy/move of each class abstracted to one value per layer",
                                         "serialisation equality of copies and frame: checked on the implementation only",
                                         "TCPStream / IPv4Reassembler use of clone/release/inner_pdu: only the primitives "
@@ -374,23 +582,50 @@ def run(chk):
         "copy_independent + handles_disjoint": "an operation changes nothing a handle it does not name observes; handles share no layer",
         "move_transfers": "move-ctor: the inner layers themselves change owner, source left as one moved-from layer",
         "copyAssignAlwaysSafe_fails / copy_assign_safe_partial": "KF-C12-3: assignment from an owned layer faults; safe outside that region",
+        "option_storage_inv (+ _step, _run)": "PDUOption pool: heap-backed option owns one live block of real_size_ bytes, no sharing, "
+                                              "no leak, no fault (nothing released is read or released again), release log = dead cells; "
+                                              "inductive over every operation from every state with the invariant",
+        "option_destroy_all_frees_each_block_once / option_owner_destroyed_frees_block": "after `end` no block is alive and every "
+                                              "allocated block is in the release log exactly once; destroying an owner releases its block then",
+        "option_value_refines / option_model_refines_spec / option_guards_agree": "what every option reports equals the plain value "
+                                              "model after every history; model and value model refuse the same operations",
+        "option_copy_assign_equal / option_move_assign_transfers / option_moved_from_owns_nothing / option_small_owns_nothing":
+            "copy = same value (also onto itself); move = target gets the value, source moved-from (data gone iff longer than 8 bytes), "
+            "onto itself the option is left moved-from; moved-from and small options own no block",
+        "option_copy_independent / option_copy_then_op": "an operation changes nothing an option it does not name reports; after a copy "
+                                              "either side can be changed without the other noticing",
+        "option_erase_closes_gap": "vector::erase (move assignments down + destroy last) shifts the later elements by one, nothing else changes",
+        "pinned_option_self_assign_reads_released / fixed_option_self_assign_noop": "KF-C12-2 at storage level: the operator without "
+                                              "identity test reads its released buffer; the fixed one is a no-op on itself",
     }
     chk.assumptions += [
         "operations the guard refuses are outside WellFormedProgram: deleting/adopting what the user does not own, a "
         "dangling reference, `a = layer owned by a`, move-assignment between two layers of one chain, "
         "`Packet::operator/=` on an empty Packet",
         "a moved-from container member is empty (libstdc++)",
+        "std::memcpy(p, p, n) with identical source and destination (move assignment of a small option onto itself) leaves "
+        "the buffer unchanged (formally an overlapping memcpy; glibc and ASan accept identical pointers)",
+        "std::vector<option>::erase move-assigns the later elements in ascending order and destroys the last one, push_back "
+        "with spare capacity constructs in place (libstdc++ _M_erase / emplace_back), heap addresses are never handed out "
+        "twice in the model (address reuse by the allocator is invisible to a program without dangling pointers)",
         "freed addresses are not handed out again within one operation (ASan quarantine) — display identities rely on it",
     ]
     chk.trusted += ["correspondence harness harness/c12_ownership.cpp + generators in checks/C12.py",
+                    "correspondence harness harness/c12_option.cpp (ASan allocator hooks count the blocks allocated while an "
+                    "option operation runs)",
                     "g++ 12 / ASan+UBSan+LSan build of the repo working tree, live-PDU census hook"]
     corr.finalize_cov(chk)
 
 
 def replay(path):
-    exe, err = core.build_harness(HARNESS, extra=HARNESS_EXTRA)
     ops = [l.rstrip("\n") for l in open(path) if not l.startswith("#") and l.strip()]
-    impl, mod, spec, faults = corr.evaluate(AREA, exe, ops, CASE_START)
+    if ops and ops[0].split(" ")[0] in OPT_CASE_START:         # a program of the option-storage stream
+        exe, err = core.build_harness(OPT_HARNESS)
+        start = OPT_CASE_START
+    else:
+        exe, err = core.build_harness(HARNESS, extra=HARNESS_EXTRA)
+        start = CASE_START
+    impl, mod, spec, faults = corr.evaluate(AREA, exe, ops, start)
     bad = corr.first_problem(ops, impl, mod, spec)
     for o, a, b, c in zip(ops, impl, mod, spec):
         print(o[:200]); print("  impl :", a[:300]); print("  model:", b[:300]); print("  spec :", c)
